@@ -15,6 +15,8 @@ def send_op(rng, tid, k, allow_ctl=True, big=False):
                         ([65530, 65536] if big else []))
     r = rng.random()
     text = payload_for(tid, k, filler)
+    if rng.random() < 0.15:
+        text = 'same text from everybody'       # repeated across threads
     if r < 0.45:
         op = {'op': 'send_text', 'text': text}
     elif r < 0.8 or not allow_ctl:
@@ -36,13 +38,21 @@ def build(case):
         hdr = EXT
         if case.get('cnct'):
             hdr += b'; client_no_context_takeover'
+        if case.get('snct'):
+            hdr += b'; server_no_context_takeover'
         extra = [hdr]
         ws = {'compress': True}
     steps = S.handshake_steps(extra)
     # traffic the event loop has to react to during the concurrent phase
     loop = case.get('loop') or []
     blob = b''
+    sdp = peer.DeflatePeer(15, 15, bool(case.get('snct')), False)
     for what in loop:
+        if what == 'ctext':
+            blob += peer.enc_frame(1, sdp.compress(
+                b'srv-compressed-text ' * 6), rsv1=1)
+        elif what == 'close_empty':
+            blob += peer.enc_frame(8, b'')
         if what == 'ping':
             blob += peer.enc_frame(9, b'srv-ping')
         elif what == 'close':
